@@ -198,9 +198,14 @@ static Sys reinit_target(const Sys &cur, int which)
     return s;
   }
   s.name                = "changed";
-  s.resolv_text         = "nameserver 10.54.0.1\nsearch re.example\noptions ndots:6 timeout:9 attempts:7\nsortlist 10.54.0.0/16\nlookup file\n";
+  s.resolv_text         = "nameserver 10.54.0.1\nnameserver fe80::54%eth0\nsearch re.example\noptions ndots:6 timeout:9 attempts:7\nsortlist 10.54.0.0/16\nlookup file\n";
   s.resolv.has_servers  = true;
-  s.resolv.servers      = { v4("10.54.0.1") };
+  {
+    Srv ll   = v6("fe80::54");
+    ll.iface = "eth0";
+    ll.scope = 2;
+    s.resolv.servers = { v4("10.54.0.1"), ll };
+  }
   s.resolv.has_domains  = true;
   s.resolv.domains      = { "re.example" };
   s.resolv.ndots        = 6;
@@ -232,6 +237,8 @@ struct User {
   std::string csv, sortlist_str;
   int         setter = 3;           // 0 ares_set_servers, 1 ares_set_servers_ports, 2 ares_set_servers_csv, 3 ares_set_servers_ports_csv
   bool        ll_without_iface = false; // a link-local server set through a setter that cannot carry the interface
+  bool        set_during_reinit = false; // the application sets its servers from inside its interface lookup callback, i.e. while the
+                                         // reload started by ares_reinit() is still reading the configuration file
   int         csv_from_channel = 0;     // 1: the setter is fed ares_get_servers_csv() of the channel itself (the list already in force),
                                         // 2: the same servers in reverse order; the reference takes the servers from the system configuration at init
   // ---- semantic view: what was validly supplied (reference side)
@@ -570,7 +577,11 @@ static Expect model(const User &u, const Sys &s, int phase, const Sys *prev)
   int cu = u.other.count("udp_port") ? atoi(u.other.at("udp_port").c_str()) : 0;
   int ct = u.other.count("tcp_port") ? atoi(u.other.at("tcp_port").c_str()) : 0;
   bool primary = fl & ARES_FLAG_PRIMARY;
-  if (u.s_servers) {
+  if (u.set_during_reinit && phase == 1) {
+    // set while the reload was under way: from then on they are the application's
+    expect_servers(e.f, { v4("10.16.0.5") }, cu, ct, primary);
+    e.who["servers"] = "user";
+  } else if (u.s_servers) {
     std::vector<Srv> usrv = u.srv;
     if (u.csv_from_channel) {
       // the application named exactly the servers that were in force after initialisation: from then on they are its own
@@ -601,7 +612,7 @@ static Expect model(const User &u, const Sys &s, int phase, const Sys *prev)
     put(d[0], it != u.other.end() ? it->second : d[1], it != u.other.end() ? "user" : "default");
   }
   unsigned m = u.okmask | ARES_OPT_QUERY_CACHE;
-  if (u.set_csv) m |= ARES_OPT_SERVERS;
+  if (u.set_csv || (u.set_during_reinit && phase == 1)) m |= ARES_OPT_SERVERS;
   if (u.set_sortlist) m |= ARES_OPT_SORTLIST;
   put("optmask", hexs(m), "user");
   return e;
@@ -908,10 +919,20 @@ static std::vector<Finding> run_scenario(const Scenario &sc, Ctx &cx, const std:
   {
     Sys S2 = reinit_target(S, sc.re);
     env_apply(make_env(S2, u));
+    bool fired = false;
+    if (u.set_during_reinit)
+      set_if_lookup_action([&] {
+        fired = true;
+        int r = ares_set_servers_ports_csv(ch, "10.16.0.5:53");
+        if (r != ARES_SUCCESS) note("C16:setter:" + fam + ":servers", "ares_set_servers_ports_csv from the interface lookup callback failed with " + std::to_string(r));
+      });
     int rr = ares_reinit(ch);
+    set_if_lookup_action(nullptr);
+    if (u.set_during_reinit && fired) cx.rep.witness("servers_set_while_reload_was_parsing");
     cx.rep.executions++;
     if (rr != ARES_SUCCESS) note("C16:reinit:" + fam + ":status", "ares_reinit failed with " + std::to_string(rr));
     Cfg    c5 = peek_cfg(ch);
+    if (u.set_during_reinit && !fired) const_cast<User &>(u).set_during_reinit = false; // the new configuration had no line that needs an interface lookup
     Expect e1 = model(u, S2, 1, &S);
     if (verbose) printf("--- effective configuration after reinit (%s)\n%s", S2.name, c5.str().c_str());
     cx.state(c5.str());
@@ -1169,14 +1190,14 @@ static Space servers_space()
 }
 
 // userwins: every subset of the overridable settings
-static const int UW_RADIX[] = { 5, 3, 3, 2, 2, 2, 2, 3, 4, 2, 3 }; // servers, sortlist, domains, lookups, ndots, tries, timeout, rotate, flags, sys(2), re(3)
+static const int UW_RADIX[] = { 6, 3, 3, 2, 2, 2, 2, 3, 4, 2, 3 }; // servers, sortlist, domains, lookups, ndots, tries, timeout, rotate, flags, sys(2), re(3)
 static Scenario  userwins_scenario(const std::vector<int> &d)
 {
   Scenario sc;
   sc.sys             = 1 + d[9];
   sc.re              = d[10];
   std::vector<int> k = d;
-  sc.servers_expressible = k[0] != 2 && k[0] != 3 && k[0] != 4;
+  sc.servers_expressible = k[0] != 2 && k[0] != 3 && k[0] != 4 && k[0] != 5;
   sc.build               = [k](User &u) {
     auto add = [&](const std::string &s) { u.desc += (u.desc.empty() ? "" : " + ") + s; };
     if (k[0] == 1) {
@@ -1196,6 +1217,9 @@ static Scenario  userwins_scenario(const std::vector<int> &d)
       u.srv       = { a, v6("2001:db8:16::2") };
       u.s_servers = true;
       add("servers(ares_set_servers_ports_csv)");
+    } else if (k[0] == 5) {
+      u.set_during_reinit = true;
+      add("servers(set from the interface lookup callback while the reinit is reading the file)");
     } else if (k[0] == 3 || k[0] == 4) {
       u.set_csv          = true;
       u.csv_from_channel = k[0] == 3 ? 1 : 2;
